@@ -69,6 +69,7 @@ namespace pika::detail {
         mutex_type* mtx = l.mutex();
 
         lower_limit_ = (std::max)(lower_limit, lower_limit_);
+        PIKA_VERIF_POINT("ssem.signal.set", this, lower_limit_, 0);
 
         // touch upon all threads
         std::int64_t count = static_cast<std::int64_t>(cond_.size(l));
